@@ -20,6 +20,7 @@ Classes == {"nil", "plain",
             "marshfailm",                  \* MarshalJSON fails on the server
             "codecvalok",                  \* value-form type whose pointer implements the codec (server sees a plain error)
             "codecvalfailfrom",            \* same, FromJSONRPCError fails on the client
+            "wrapreg",                     \* a registered type wrapped with %w: the dynamic type of the returned error is not registered
             "xmarshvalfailun"}             \* server: pointer-form marshalable; client binds a value-form type to the same code whose UnmarshalJSON fails
 Rels    == {"both", "clientonly", "serveronly", "disjoint", "none"}
 Shapes  == {"err", "valerr"}
@@ -33,7 +34,7 @@ IsCodec(c) == c \in {"codec", "codecfailto", "codecfailfrom"}
 \* and therefore travels like a plain registered type (type only, no content)
 IsMarsh(c) == c \in {"marsh", "marshfailun", "marshfailm", "xmarshvalfailun"}
 Form(c)    == IF c \in {"regval", "marshval", "codecvalok", "codecvalfailfrom", "xmarshvalfailun"} THEN "val" ELSE "ptr"
-Registrable(c) == c \notin {"nil", "plain"}
+Registrable(c) == c \notin {"nil", "plain", "wrapreg"}      \* (the harness registers wrapreg's inner type as rel says; it must not matter)
 
 \* codes: 1 = default, "S" = the code the server table gives the type, "C" = the code the client table uses,
 \* "K" = the code a codec error supplies itself (the harness registers codec types under K on the client)
@@ -74,7 +75,7 @@ P_C11(r, o) ==
   /\ (r.cls = "nil") <=> ~o.nonnil
   /\ o.nonnil => o.zero
   /\ r.cls = "nil" => (o.zero <=> (r.shape = "err" \/ r.hval = "zero"))      \* the handler's value arrives when there is no error
-  /\ r.cls = "plain" => o.etype = "generic" /\ o.msgcode = "kept"
+  /\ r.cls \in {"plain", "wrapreg"} => o.etype = "generic" /\ o.msgcode = "kept"
   /\ (SameCodeBothSides(r) /\ ~ConversionFails(r) /\ r.cls \notin {"codecfailto", "marshfailm"})
        => o.etype = "registered" /\ o.form = Form(r.cls) /\ (IsCodec(r.cls) \/ IsMarsh(r.cls) => o.content = "eq")
   /\ (SameCodeBothSides(r) /\ ConversionFails(r)) => o.etype = "generic"
